@@ -58,7 +58,7 @@ func (Prop) Assumptions() []string {
 	}
 }
 
-var opKinds = []string{"create", "create", "create_full", "first", "find", "preload", "preload_all", "joins", "update", "updates", "delete", "delete_pet", "tx", "tx_fail", "assoc_append", "assoc_find", "assoc_count", "note", "note_find", "count", "save"}
+var opKinds = []string{"create", "create", "create_full", "first", "find", "preload", "preload_all", "joins", "update", "updates", "delete", "delete_pet", "tx", "tx_fail", "assoc_append", "assoc_find", "assoc_count", "note", "note_find", "count", "save", "gadget", "gadget", "dry_gadget", "dry_gadget", "dry_create", "dry_update", "dry_find", "dry_delete"}
 
 func (Prop) Gen(r *core.Rand, tier string) interface{} {
 	g := 2 + r.Intn(3)
@@ -78,11 +78,20 @@ func (Prop) Gen(r *core.Rand, tier string) interface{} {
 		}
 	}
 	c := &Case{Cold: r.Chance(50), Prepare: r.Chance(30)}
+	// swarm: most cases draw all their operations from a small palette, so that
+	// several tasks run the same kind of operation at the same time
+	palette := opKinds
+	if r.Chance(70) {
+		palette = nil
+		for _, i := range r.Perm(len(opKinds))[:1+r.Intn(4)] {
+			palette = append(palette, opKinds[i])
+		}
+	}
 	for t := 0; t < g; t++ {
 		var prog []Op
 		n := 1 + r.Intn(maxOps)
 		for i := 0; i < n; i++ {
-			prog = append(prog, Op{Kind: r.Pick(opKinds), J: r.Intn(3), X: r.Intn(50)})
+			prog = append(prog, Op{Kind: r.Pick(palette), J: r.Intn(3), X: r.Intn(50)})
 		}
 		c.Tasks = append(c.Tasks, prog)
 	}
@@ -231,6 +240,10 @@ func out(tx *gorm.DB, v string) string {
 	return fmt.Sprintf("err=%q rows=%d %s", e, tx.RowsAffected, v)
 }
 
+func drySQL(tx *gorm.DB) string {
+	return tx.Statement.SQL.String() + " | " + fmt.Sprint(tx.Statement.Vars...)
+}
+
 // runOp executes one operation of task t and renders what the caller observes.
 func runOp(db *gorm.DB, t int, op Op) string {
 	lo, hi := uid(t, 0), uid(t, 3)+99
@@ -302,6 +315,36 @@ func runOp(db *gorm.DB, t int, op Op) string {
 		as := db.Model(&fam.User{ID: id}).Association("Languages")
 		n := as.Count()
 		return fmt.Sprintf("err=%v n=%d", as.Error, n)
+	case "gadget", "dry_gadget":
+		// database-side defaults: which columns are inserted depends on the value
+		g := &fam.Gadget{ID: id + 90 + uint(op.X%5), Name: fmt.Sprintf("g%d", op.X)}
+		switch op.X % 3 {
+		case 0:
+			g.Score = 1000 + op.X
+		case 1:
+			g.Level = 2000 + op.X
+		}
+		if op.Kind == "dry_gadget" {
+			tx := db.Session(&gorm.Session{DryRun: true, SkipDefaultTransaction: true}).Create(g)
+			return out(tx, drySQL(tx))
+		}
+		tx := db.Create(g)
+		return out(tx, fmt.Sprintf("G{%d %s %d %d}", g.ID, g.Name, g.Score, g.Level))
+	case "dry_create":
+		u := userFor(t, op.J, false)
+		u.Company, u.Pets = nil, nil
+		tx := db.Session(&gorm.Session{DryRun: true, SkipDefaultTransaction: true}).Create(u)
+		return out(tx, drySQL(tx))
+	case "dry_update":
+		tx := db.Session(&gorm.Session{DryRun: true, SkipDefaultTransaction: true}).Model(&fam.User{ID: id}).Updates(map[string]interface{}{"name": fmt.Sprintf("d%d", op.X), "age": op.X})
+		return out(tx, drySQL(tx))
+	case "dry_find":
+		var us []fam.User
+		tx := db.Session(&gorm.Session{DryRun: true, SkipDefaultTransaction: true}).Where("id BETWEEN ? AND ? AND name <> ?", lo, hi, fmt.Sprintf("x%d", op.X)).Order("id").Limit(1 + op.X%5).Find(&us)
+		return out(tx, drySQL(tx))
+	case "dry_delete":
+		tx := db.Session(&gorm.Session{DryRun: true, SkipDefaultTransaction: true}).Where("age > ?", op.X).Delete(&fam.User{ID: id})
+		return out(tx, drySQL(tx))
 	case "note":
 		n := &fam.Note{ID: id + 80 + uint(op.X%10), Body: "note", Rank: op.X}
 		return out(db.Create(n), fmt.Sprint(n.ID))
@@ -425,7 +468,7 @@ func warm(db *gorm.DB, s *sched.Sched) {
 		}
 	}
 	for _, m := range fam.AllModels() {
-		st := db.Session(&gorm.Session{}).Statement
+		st := &gorm.Statement{DB: db} // a statement of its own: Parse must not touch the shared handle's
 		if err := st.Parse(m); err == nil {
 			wrap(st.Schema)
 		}
@@ -517,9 +560,17 @@ func (p Prop) concurrent(c *Case) (*runResult, error) {
 	return rr, err
 }
 
+// Debug prints every task's results and the trace.
+var Debug bool
+
 func (p Prop) Run(ci interface{}, focus *core.Violation) *core.Outcome {
 	c := ci.(*Case)
 	o := &core.Outcome{Runs: 1}
+	defer func() {
+		if Debug && o.Sample != nil {
+			fmt.Println(o.Sample)
+		}
+	}()
 	want, err := p.serial(c)
 	if err != nil {
 		o.Trouble = "serial reference run: " + err.Error()
@@ -531,6 +582,14 @@ func (p Prop) Run(ci interface{}, focus *core.Violation) *core.Outcome {
 		return o
 	}
 	sr := got.sres
+	if Debug {
+		fmt.Println("TRACE", strings.Join(sr.Trace, " "))
+		for t := range got.results {
+			for i, r := range got.results[t] {
+				fmt.Printf("GOT  t%d op%d %s\nWANT t%d op%d %s\n", t, i, r, t, i, want.results[t][i])
+			}
+		}
+	}
 	o.TraceHash = core.Hash(sr.SwitchHash, strings.Join(sr.Trace, ","))
 	if sr.Switches > 0 {
 		o.Hashes = []string{core.Hash(sr.SwitchHash)}
